@@ -557,7 +557,7 @@ Proof.
   - fold (has_ink l) in H. rewrite (IH H). apply andb_false_r.
 Qed.
 
-Lemma unmodelled_start_lt : forallb starts_lt unmodelled_tags = true.
+Lemma unmodelled_start_lt : forallb starts3 unmodelled_tags = true.
 Proof. vm_compute. reflexivity. Qed.
 
 Lemma tagfree_unmodelled s : tagfree s = true -> unmodelled s = false.
